@@ -2,11 +2,59 @@
 # While genuine findings of C19 are open the unchanged tree already exits 1; run this table with the open findings excluded, e.g.
 #   C19_SKIP="$(paste -sd, <file with the known signatures>)" selftest/mutants.py --table selftest/mutant_table_C19.py
 # (C19_SKIP is read by checks/C19.py; once the findings are recorded in known_findings.json the variable is not needed).
+# Signatures of the findings open when this table was written (join with commas for C19_SKIP; a trailing * matches a prefix):
+#   crash:AttributeError@bip32/key_origin.py:assert_valid_hd_key_paths
+#   crash:AttributeError@bip32/key_origin.py:decode_hd_key_paths
+#   crash:AttributeError@psbt/psbt_utils.py:decode_dict_bytes_bytes
+#   crash:AttributeError@psbt/psbt_utils.py:decode_leaf_scripts
+#   crash:AttributeError@psbt/psbt_utils.py:decode_musig2_participant_pub_keys
+#   crash:AttributeError@psbt/psbt_utils.py:decode_taproot_bip32
+#   crash:IndexError@ecc/musig2.py:partial_sig_verify
+#   crash:IndexError@psbt/psbt.py:ecdsa_sig_hash
+#   crash:IndexError@psbt/psbt.py:taproot_sig_hash
+#   crash:IndexError@psbt/psbt_utils.py:decode_leaf_scripts
+#   crash:IndexError@psbt/psbt_utils.py:decode_taproot_bip32
+#   crash:IndexError@psbt/psbt_utils.py:decode_taproot_tree
+#   crash:IndexError@script/engine/__init__.py:verify_input
+#   crash:KeyError@psbt/psbt_utils.py:decode_leaf_scripts
+#   crash:TypeError@descriptors/miniscript.py:_key
+#   crash:TypeError@ecc/borromean.py:_get_msg_format
+#   crash:TypeError@ecc/musig2.py:_session_key_agg_coeff
+#   crash:TypeError@hashes.py:merkle_root_from_branch
+#   crash:TypeError@network.py:assert_valid
+#   crash:TypeError@psbt/psbt_in.py:assert_valid
+#   crash:TypeError@psbt/psbt_out.py:assert_valid
+#   crash:TypeError@psbt/psbt_utils.py:decode_leaf_scripts
+#   crash:TypeError@psbt/psbt_utils.py:decode_musig2_participant_pub_keys
+#   crash:TypeError@psbt/psbt_utils.py:decode_taproot_bip32
+#   crash:TypeError@psbt/psbt_utils.py:decode_taproot_tree
+#   crash:TypeError@script/script_pub_key.py:assert_valid
+#   crash:TypeError@script/sig_hash.py:assert_valid_hash_type
+#   crash:TypeError@to_pub_key.py:_sec_from_pub_key
+#   crash:UnicodeEncodeError@mnemonic/bip39.py:seed_from_mnemonic
+#   crash:UnicodeEncodeError@mnemonic/electrum.py:_seed_version
+#   crash:ValueError@descriptors/miniscript.py:_read_number
+#   crash:ValueError@tx_or_psbt.py:_octets_from_text
+#   predicate-raises:BasicBlockFilter.match:BTClibValueError
+#   predicate-raises:BasicBlockFilter.match_any:BTClibValueError
+#   predicate-raises:b32.is_segwit_prefixed:BTClibValueError
+#   predicate-raises:miniscript.reads_back:BTClibValueError
+#   predicate-raises:proof_of_work.is_negative_bits:BTClibValueError
+#   predicate-raises:script_pub_key.is_p2ms:BTClibRuntimeError
+#   predicate-raises:secp256k1.is_on_curve:BTClibValueError
+# Result with those excluded (quick tier): 10/10 caught --
+#   varint-cap-removed: crash:OverflowError@var_bytes.py:parse, @utils.py:read_exactly | read-exactly-short-read: crash:IndexError@p2p/block_filters.py:parse, @p2p/compact_blocks.py:parse
+#   stream-trailing-check-on-streams: valid-encoding-refused@block.block.Block.parse ... | bms-verify-lets-refusals-out: predicate-raises:bms.verify:BTClibValueError
+#   tr-tree-depth-unbounded: RecursionError@descriptors.descriptors.parse | json-number-typeerror-escapes: crash:TypeError@utils.py:int_from_json_number
+#   json-object-not-asked: crash:TypeError@utils.py:__init__ ... | string-bytes-unicode-escapes: crash:UnicodeDecodeError@utils.py:str_from_string
+#   sighash-annex-reads-first-byte: crash:IndexError@script/sig_hash.py:taproot_annex_and_ext | sighash-input-index-unchecked: crash:IndexError@script/sig_hash.py:from_tx
 m("C19-varint-cap-removed", "C19", "btclib/var_int.py", "    if i > max_size:\n", "    if False:\n", ["--only", "parsers_bytes"])
 m("C19-read-exactly-short-read", "C19", "btclib/utils.py", "    if len(data) != size:\n", "    if False:\n", ["--only", "parsers_bytes"])
-m("C19-stream-trailing-check-on-streams", "C19", "btclib/utils.py", "    if isinstance(data, BytesIO):\n        return\n", "    if False:\n        return\n", ["--only", "parsers_bytes"])
+m("C19-stream-trailing-check-on-streams", "C19", "btclib/utils.py", "    if isinstance(data, BytesIO):\n        return\n", "    if False:\n        return\n", ["--only", "seed_soundness,parsers_bytes"])
 m("C19-bms-verify-lets-refusals-out", "C19", "btclib/ecc/bms.py", "    except (ValueError, BTClibRuntimeError):\n        return False\n", "    except BTClibRuntimeError:\n        return False\n", ["--only", "predicates"])
-m("C19-tr-tree-depth-unbounded", "C19", "btclib/descriptors/descriptors.py", "    if depth > MAX_TREE_DEPTH:\n", "    if False:\n", ["--only", "parsers_text"])
+m("C19-tr-tree-depth-unbounded", "C19", "btclib/descriptors/descriptors.py", "    if depth > MAX_TREE_DEPTH:\n", "    if False:\n", ["--only", "nesting_bombs"])
 m("C19-json-number-typeerror-escapes", "C19", "btclib/utils.py", "    except TypeError as e:\n        raise BTClibTypeError(f\"invalid {what} type: {type(value).__name__}\") from e\n", "    except ZeroDivisionError as e:\n        raise BTClibTypeError(f\"invalid {what} type: {type(value).__name__}\") from e\n", ["--only", "from_dict"])
 m("C19-json-object-not-asked", "C19", "btclib/utils.py", "    assert_type(dict_, Mapping, f\"{what} dict\")\n", "    pass\n", ["--only", "from_dict"])
 m("C19-string-bytes-unicode-escapes", "C19", "btclib/utils.py", "    except UnicodeDecodeError as e:\n        raise BTClibValueError(f\"non-ascii character in {what}: {e}\") from e", "    except ZeroDivisionError as e:\n        raise BTClibValueError(f\"non-ascii character in {what}: {e}\") from e", ["--only", "parsers_text"])
+m("C19-sighash-annex-reads-first-byte", "C19", "btclib/script/sig_hash.py", "    if len(stack) >= 2 and stack[-1][:1] == b\"\\x50\":", "    if len(stack) >= 2 and stack[-1][0] == 0x50:", ["--only", "consumers"])
+m("C19-sighash-input-index-unchecked", "C19", "btclib/script/sig_hash.py", "    _assert_valid_vin_i(tx, vin_i)\n    # both lists are indexed at vin_i below", "    # both lists are indexed at vin_i below", ["--only", "consumers"])
